@@ -189,6 +189,7 @@ class FakeS3:
     def __init__(self, emit=None, point=None):
         self.emit = emit or (lambda e, **kw: None)
         self.point = point or (lambda kind='': None)
+        self.latency_plan = None
         self.objects = {}       # (bucket, key) -> bytes
         self.object_meta = {}   # (bucket, key) -> dict (how it was created)
         self.mpus = {}          # upload id -> dict
@@ -247,6 +248,8 @@ class FakeS3:
         extra = {}
         try:
             self.point('s3-begin')
+            if self.latency_plan:
+                self.latency_plan(call, 'begin')     # slow to reach the service
             fault = self.fault_plan(call) if self.fault_plan else None
             if op == 'CompleteMultipartUpload':
                 extra = {'parts': self._listing(params)[1]}
@@ -260,6 +263,8 @@ class FakeS3:
             except _S3Error as e:
                 outcome = f'err:{e.code}'
                 return self._error(request, e.status, e.code)
+            if self.latency_plan:
+                self.latency_plan(call, 'end')       # took effect, response is slow
             if fault is not None:
                 outcome = f'fault-after:{fault.kind}'
                 call['fault'] = fault
